@@ -16,7 +16,7 @@
 From stdpp Require Import gmap.
 From Coq Require Import Strings.String Strings.Ascii ZArith NArith Lia.
 From RV Require Import Base.Text Irc.Str Irc.Parse Irc.State Irc.Monad Irc.Cmds Irc.SCmds Irc.Apply.
-From RV Require IrcProofs.StrLemmas.
+From RV Require IrcProofs.StrLemmas IrcProofs.Trim.
 From RV Require Import IrcProofs.Top.
 From RV Require Api.Auth Api.Post Api.PostProofs.
 Local Open Scope string_scope.
@@ -540,7 +540,10 @@ Proof.
       destruct (needs_colon _); [apply cln_app; [reflexivity|assumption]|assumption].
 Qed.
 Lemma cln_msg_bytes m : cln m -> cln (msg_bytes m).
-Proof. intros H. apply cln_stake, cln_msg_bytes_full, H. Qed.
+Proof.
+  intros H. unfold msg_bytes. destruct (RV.IrcProofs.Trim.trim_partial_rune_stake (stake max_length (msg_bytes_full m))) as [i ->].
+  apply cln_stake, cln_stake, cln_msg_bytes_full, H.
+Qed.
 
 (* ---- helpers of the handlers -------------------------------------------------------------------------- *)
 Lemma cln_extract_password pw pfx : cln pw -> cln (extract_password pw pfx).
